@@ -40,27 +40,37 @@ class BuildError(Exception):
         self.log = log
 
 
+def _run(cmd, timeout, cwd, env, inp, merge):
+    """subprocess in its own process group; the whole group is killed on timeout (go run leaves grandchildren)"""
+    import signal
+    p = subprocess.Popen(cmd, shell=isinstance(cmd, str), cwd=cwd, env=env or GOENV,
+                         stdin=subprocess.PIPE if inp is not None else subprocess.DEVNULL,
+                         stdout=subprocess.PIPE, stderr=subprocess.STDOUT if merge else subprocess.PIPE, text=True,
+                         errors="replace", start_new_session=True)
+    try:
+        out, err = p.communicate(inp, timeout=timeout)
+        return p.returncode, out, err or ""
+    except subprocess.TimeoutExpired:
+        try:
+            os.killpg(p.pid, signal.SIGKILL)
+        except OSError:
+            pass
+        try:
+            out, err = p.communicate(timeout=10)
+        except Exception:
+            out, err = "", ""
+        return 124, (out or ""), (err or "") + "\n[timeout after %ss]" % timeout
+
+
 def sh(cmd, timeout=600, cwd=None, env=None, inp=None):
     """Run a command (list or shell string); returns (rc, combined output). rc 124 on timeout."""
-    try:
-        p = subprocess.run(cmd, shell=isinstance(cmd, str), cwd=cwd, env=env or GOENV, input=inp,
-                           stdout=subprocess.PIPE, stderr=subprocess.STDOUT, timeout=timeout, text=True,
-                           errors="replace")
-        return p.returncode, p.stdout
-    except subprocess.TimeoutExpired as e:
-        out = e.stdout if isinstance(e.stdout, str) else (e.stdout or b"").decode("utf8", "replace")
-        return 124, out + "\n[timeout after %ss]" % timeout
+    rc, out, err = _run(cmd, timeout, cwd, env, inp, True)
+    return rc, out + (err if rc == 124 else "")
 
 
 def sh2(cmd, timeout=600, cwd=None, env=None, inp=None):
     """Like sh but keeps stdout and stderr apart: (rc, stdout, stderr)."""
-    try:
-        p = subprocess.run(cmd, shell=isinstance(cmd, str), cwd=cwd, env=env or GOENV, input=inp,
-                           stdout=subprocess.PIPE, stderr=subprocess.PIPE, timeout=timeout, text=True,
-                           errors="replace")
-        return p.returncode, p.stdout, p.stderr
-    except subprocess.TimeoutExpired as e:
-        return 124, "", "[timeout after %ss]" % timeout
+    return _run(cmd, timeout, cwd, env, inp, False)
 
 
 class _Lock:
